@@ -68,7 +68,7 @@ def run(ctx):
     ctx.assumptions += ["byte/row/column quantities < 2^32", "theorems assume Summarized/shapeOK of C02 (checked on every real tree by ./check C02)"]
     ctx.extra_lean_dirs = ["C02"]
     ctx.regen()
-    ctx.prove(["TsVerif.C06.Props"], "TsVerif/C06/Audit.lean")
+    ctx.prove(["TsVerif.C06.Props", "TsVerif.C06.CursorProps"], "TsVerif/C06/Audit.lean")
     driver = ctx.build_driver("tsv-c06")
     explorer = ctx.cargo_bin("c06")
     langdump = ctx.cunit("cunit_c02")
@@ -108,6 +108,7 @@ def run(ctx):
     corr_bad = judge_bad = 0
     sexp_hyp_bad = 0
     anon_hyp_bad = 0
+    stack_bad = 0
     hidden_missing_trees = 0
     per_clause = {}
     max_fanout = 0
@@ -128,6 +129,7 @@ def run(ctx):
             sexp_hyp_bad += 1
         if kv.get("anonleafok", "1") != "1":
             anon_hyp_bad += 1
+        stack_bad += int(kv.get("stackbad", "0") or 0)
         if kv.get("hiddenmissing", "0") == "1":
             hidden_missing_trees += 1
         fan = int(kv.get("fanout", "0") or 0)
@@ -170,6 +172,7 @@ def run(ctx):
     ctx.oblige("corr:sexpOK-holds-on-real-trees(hypothesis of sexp_spec; trees with a hidden MISSING node are outside the theorem and "
                "reported by the judge)", sexp_hyp_bad == 0, "%d trees" % sexp_hyp_bad)
     ctx.oblige("corr:anonLeafOK-holds-on-real-trees(hypothesis of named_child_spec)", anon_hyp_bad == 0, "%d trees" % anon_hyp_bad)
+    ctx.oblige("corr:StackOK-linkage-holds-on-every-cursor-stack(hypothesis of cursor_next_sibling_spec)", stack_bad == 0, "%d stacks" % stack_bad)
     ctx.coverage["trees_with_hidden_missing_node"] = hidden_missing_trees
     ctx.coverage.update({
         "evaluations": evals, "distinct_nontrivial": len(distinct),
